@@ -4,7 +4,7 @@ import json, os, glob
 root = os.path.join(os.path.dirname(os.path.dirname(os.path.abspath(__file__))), 'seeded')
 print('| id | change | needs | caught by (quick tier, codes) |')
 print('|---|---|---|---|')
-for d in sorted(glob.glob(os.path.join(root, '*'))):
+for d in sorted(glob.glob(os.path.join(root, '*', ''))):
     m = json.load(open(os.path.join(d, 'meta.json')))
     det = (m.get('detection') or {}).get('quick', {}).get('results', {})
     hits = ['%s: %s' % (p, ', '.join(v['codes'][:3])) for p, v in sorted(det.items()) if v['exit'] == 1]
